@@ -316,11 +316,16 @@ def _run_impl(case: dict) -> dict:
                     subs = arg
                     if not subs or c is None:
                         return False
+                    gone = False
                     for sub in subs:
                         if sub[0] not in SUB_API + SUB_ENV:
                             raise ValueError(sub)
                         if not enabled(slot, sub[0], sub[1] if len(sub) > 1 else None):
                             return False
+                        if sub[0] in SUB_ENV:
+                            if gone:
+                                return False          # the remote end does nothing after it closed / reset the socket
+                            gone = sub[0] != 'frame'
                     return True
                 if name == 'cannotConnect':
                     w_ = fn.lib_writers.get(SERVER_ADDR)
@@ -461,7 +466,7 @@ def _run_impl(case: dict) -> dict:
                 elif name == 'cancelAttempt':
                     slot.task.cancel()
                 elif name == 'firstFrame':
-                    rr, rw = fn.rem[slot.key]
+                    rw = libw(slot).peer
                     if arg in ('initP', 'initF'):
                         data = PeerInit.Request(f'peer{slot.idx}', arg[-1], 0).serialize()
                     elif arg in ('pierceP', 'pierceF'):
@@ -483,7 +488,7 @@ def _run_impl(case: dict) -> dict:
                         raise ValueError(arg)
                     rw.write(enc(slot, data))
                 elif name == 'frame':
-                    rr, rw = fn.rem[slot.key]
+                    rw = libw(slot).peer
                     if slot.origin == 'server':
                         data = (GetUserStatus.Response('x', 1, False).serialize() if arg
                                 else struct.pack('<II', 4, 0xFFFF))
@@ -491,15 +496,15 @@ def _run_impl(case: dict) -> dict:
                         data = PeerSharesRequest.Request().serialize() if arg else struct.pack('<II', 4, 0xFFFF)
                     rw.write(enc(slot, data))
                 elif name == 'partialEof':
-                    rr, rw = fn.rem[slot.key]
+                    rw = libw(slot).peer
                     rw.write(b'\x05\x00')
                     rw.close()
                     slot.remote_closed = True
                 elif name == 'eof':
-                    fn.rem[slot.key][1].close()
+                    libw(slot).peer.close()
                     slot.remote_closed = True
                 elif name == 'reset':
-                    fn.rem[slot.key][1].reset()
+                    libw(slot).peer.reset()
                     slot.remote_closed = True
                 elif name == 'readTimeout':
                     assert fire_timer(loop, c, 'read')
@@ -511,7 +516,7 @@ def _run_impl(case: dict) -> dict:
                         # a complete frame reaches the socket in the same loop iteration, behind the disconnect call
                         data = (GetUserStatus.Response('x', 1, False).serialize() if slot.origin == 'server'
                                 else PeerSharesRequest.Request().serialize())
-                        fn.rem[slot.key][1].write(enc(slot, data))
+                        libw(slot).peer.write(enc(slot, data))
                 elif name == 'closeDone':
                     if arg == 'timeout':
                         assert fire_timer(loop, c, 'close')
@@ -1134,7 +1139,8 @@ def _queue_grid() -> list[dict]:
             for m in ('ok', 'block'):
                 for r1 in ('REQUESTED', 'UNKNOWN', 'EOF'):
                     for r2 in ('REQUESTED', 'TIMEOUT'):
-                        for extra in ([], [['send', 'ok']], [['queue', 'ok']] if m == 'ok' else [['send', 'ok']]):
+                        # (a held-back drain holds back every send of the burst: further sends only when all go out)
+                        for extra in (([], [['send', 'ok']], [['queue', 'ok']]) if m == 'ok' else ([],)):
                             burst = [['queue', m]] + extra + [['disconnect', r1], ['disconnect', r2]]
                             for after in ([], [['eof']] if has_reader else [['reset']], [['reset']], [['drainOk']],
                                           [['disconnect', 'REQUESTED']]):
@@ -1242,7 +1248,15 @@ def _gen_burst(rng: random.Random, env: bool) -> list:
     if env:
         pool = [['queue', 'ok'], ['queue', 'block'], ['send', 'ok'], ['disconnect', 'REQUESTED'], ['disconnect', 'EOF'],
                 ['disconnect', 'REQUESTED'], ['eof'], ['reset'], ['frame', 1], ['partialEof'], ['queue', 'fail']]
-        return [list(rng.choice(pool)) for _ in range(rng.randint(2, 5))]
+        subs, gone = [], False
+        for _ in range(rng.randint(2, 5)):
+            o = list(rng.choice(pool))
+            if o[0] in ('eof', 'reset', 'frame', 'partialEof'):
+                if gone:
+                    continue
+                gone = o[0] != 'frame'
+            subs.append(o)
+        return subs
     sends: list = []
     if rng.random() < 0.85:
         m = rng.choice(['ok', 'ok', 'block', 'fail'])
